@@ -1353,6 +1353,11 @@ def exempt_names(fn):
       if isinstance(c, (ast.FunctionDef, ast.ClassDef, ast.Lambda)):
         for h in _header_children(c):
           rec1(h)
+        if isinstance(c, ast.ClassDef):
+          # an except-clause name bound in a class body nested here shares the exemption (it
+          # captures e.g. annotation reads made at class level)
+          for s_ in c.body:
+            rec1(s_)
         continue
       rec1(c)
 
@@ -1360,6 +1365,9 @@ def exempt_names(fn):
     if isinstance(c, (ast.FunctionDef, ast.ClassDef, ast.Lambda)):
       for h in _header_children(c):
         rec1(h)
+      if isinstance(c, ast.ClassDef):
+        for s_ in c.body:
+          rec1(s_)
       return
     if isinstance(c, COMPS):
       for g in c.generators:
@@ -1529,7 +1537,9 @@ def check_static(src, top, fails, stats):
     own = set(s.get_name() for s in syms if s.is_free() or s.is_global())
     wantf = nf | ng
     gotf = simple(S.read) - (simple(S.bound) - simple(S.globals) - simple(S.nonlocals))
-    dont = (dg - own) | enclosing_comp_targets(node) | artefact.get(node, set())
+    # except-clause names are outside the property wherever they are bound below this function
+    exc_names = set(h.name for h in ast.walk(node) if isinstance(h, ast.ExceptHandler) and h.name)
+    dont = (dg - own) | enclosing_comp_targets(node) | artefact.get(node, set()) | exc_names
     if artefact.get(node):
       stats['calib_inlined_comprehension_capture'] = stats.get('calib_inlined_comprehension_capture', 0) + 1
     missing = wantf - gotf - dont
